@@ -34,7 +34,7 @@ def plan(tier, seed):
     for name in sorted(C12.library()):
         jobs.append(dict(kind='matrix', target=name))
     jobs += [dict(kind='csv', rows=r) for r in (0, 1)]
-    jobs += [dict(kind='csv', rows=r, shape0=s0, opts=o) for r in ((2,) if tier == 'quick' else (2, 3)) for s0 in range(4) for o in (0, 2)]
+    jobs += [dict(kind='csv', rows=r, shape0=s0, opts=o) for r in (2,) for s0 in range(4) for o in (0, 2)]
     jobs += [dict(kind='errors', cls=c.__name__) for c in error_classes()]
     return jobs
 
@@ -433,7 +433,7 @@ def describe(tier):
                       'mpilot/params.py: clean()', 'mpilot/libraries/eems/csv/io.py: EEMSRead.execute', 'mpilot/cli/mpilot.py: main', '__str__ of every error class in mpilot/exceptions.py and the eems exceptions modules'],
         'bounds': {'quick': '9 classes of risky lexemes (z3 finds up to 4 witnesses each through the first-match lemma on the live master regex, lexeme <= 14 chars) + characters no rule matches; the full C12 fault matrix judged for escaping exceptions; '
                             'CSV files with 0-2 data rows x 5 header forms x {2 cells, ragged, blank line, 3 cells} x 7 cell forms x 3 read-option sets; every MPilot error class x representative field values x symbolic line number 1..6 through the real CLI handler',
-                   'thorough': 'CSV files up to 3 rows'},
+                   'thorough': 'as quick (CSV files of 3 rows did not finish: > 90 000 paths per configuration); larger sets of misplaced-token templates'},
         'outside': ['lexemes longer than the bound', 'NetCDF inputs', 'out-of-memory / interpreter-level failures', 'S-repr: which escape sequences CPython\'s unicode_escape codec rejects is a documented contract, exercised on the witnesses'],
         'assumptions': ['the solver decides which inputs of each risky class are real lexemes of the live lexer; the behaviour of the token action on them is observed on the real parser',
                         'error line numbers lie within the file (1..number of lines)'],
